@@ -468,9 +468,15 @@ def failedRestoreResidue (h : List Ev) : Option String :=
         let again := h.any (fun x => match x with
           | .frestore s l d => s == srv && l > life && d == data
           | _ => false)
+        -- (or the server was never restarted and simply kept the state its FSM had already taken)
+        let kept := h.any (fun x => match x with
+          | .frestore s l d => s == srv && l == life && d == data
+          | _ => false)
         let elsewhere := (finalStates h).any (fun st => st.1 != srv && st.2.2.take data.length ≠ data)
         let here := (finalStates h).any (fun st => st.1 == srv && st.2.2.take data.length == data)
-        if again && elsewhere && here then some s!"unfinished-restore-on-{srv}-came-back-at-its-restart-only-there" else none
+        if again && elsewhere && here then some s!"unfinished-restore-on-{srv}-came-back-at-its-restart-only-there"
+        else if kept && elsewhere && here then some s!"unfinished-restore-on-{srv}-stayed-only-there"
+        else none
     | _ => none)
 
 /-! ## candidate / follower loop: who gets elected, availability, quiet rejoin -/
